@@ -376,6 +376,8 @@ func (w *Writer) writeSwitch(switchStmt ir.StmtSwitch) error {
 		return err
 	}
 
+	forwarding := w.continueCtx.enterNestedSwitch()
+
 	w.WriteLine("switch(%s) {", selector)
 	w.PushIndent()
 
@@ -419,7 +421,33 @@ func (w *Writer) writeSwitch(switchStmt ir.StmtSwitch) error {
 
 	w.PopIndent()
 	w.WriteLine("}")
+
+	if forwarding {
+		result, err := w.continueCtx.exitSwitch()
+		if err != nil {
+			return err
+		}
+		w.writeContinueForwardExit(result)
+	}
 	return nil
+}
+
+// writeContinueForwardExit repeats a forwarded continue after a switch.
+func (w *Writer) writeContinueForwardExit(result exitControlFlowResult) {
+	switch result.kind {
+	case exitContinue:
+		w.WriteLine("if (%s) {", result.variable)
+		w.PushIndent()
+		w.WriteLine("continue;")
+		w.PopIndent()
+		w.WriteLine("}")
+	case exitBreak:
+		w.WriteLine("if (%s) {", result.variable)
+		w.PushIndent()
+		w.WriteLine("break;")
+		w.PopIndent()
+		w.WriteLine("}")
+	}
 }
 
 // isSingleBodySwitch checks if all cases except the last are empty fall-through.
@@ -463,20 +491,7 @@ func (w *Writer) writeSwitchAsDoWhile(switchStmt ir.StmtSwitch) error {
 	if err != nil {
 		return err
 	}
-	switch result.kind {
-	case exitContinue:
-		w.WriteLine("if (%s) {", result.variable)
-		w.PushIndent()
-		w.WriteLine("continue;")
-		w.PopIndent()
-		w.WriteLine("}")
-	case exitBreak:
-		w.WriteLine("if (%s) {", result.variable)
-		w.PushIndent()
-		w.WriteLine("break;")
-		w.PopIndent()
-		w.WriteLine("}")
-	}
+	w.writeContinueForwardExit(result)
 
 	return nil
 }
